@@ -28,8 +28,9 @@ import (
 )
 
 type replay struct {
-	Cfg   sw.SysOpts `json:"cfg"`
-	Trace []string   `json:"trace"`
+	Cfg    sw.SysOpts `json:"cfg"`
+	Trace  []string   `json:"trace"`
+	Xproto *xpCase    `json:"xproto,omitempty"`
 }
 
 type sys struct {
@@ -515,7 +516,7 @@ func goroutineBaseline(r *vk.Run) {
 		r.Eval(1)
 		n := run(tr)
 		if n > base0 {
-			r.Violation("goroutines-not-back-to-baseline", fmt.Sprintf("after %v and all sessions gone: %d goroutines, baseline with an idle server %d\n%s", tr, n, base0, stacks), replay{o, tr})
+			r.Violation("goroutines-not-back-to-baseline", fmt.Sprintf("after %v and all sessions gone: %d goroutines, baseline with an idle server %d\n%s", tr, n, base0, stacks), replay{Cfg: o, Trace: tr})
 		}
 		r.Class(fmt.Sprintf("baseline/%d", len(tr)))
 	}
@@ -530,11 +531,21 @@ func main() {
 	r.Assume("pkg/logic's clock is the world's (vgen rewrites time.Now): one second per tick and one second per publisher arrival, so record file names of successive publishers differ; base.LogicCheckSessionAliveIntervalSec = 1",
 		"HLS on the instrumented in-memory file system; FLV/TS records on a scratch directory",
 		"the delayed HLS directory cleanup task (real-time timer) does not fire within an execution; relay push finalisation is C17's subject",
-		"publisher = RTMP; RTSP / customize / GB28181 inputs share Group.delIn")
+		"the event search uses an RTMP publisher; the cross-protocol enumeration (xproto.go) re-publishes one name through every sequence of 2-3 (thorough: 4) inputs over {RTMP, RTSP, customize} x {peer close, kick} with a persistent RTMP player and fresh RTSP / RTMP players per incarnation, every frame tagged with its incarnation")
 	mk := func(o sw.SysOpts) func() seqx.Sys { return func() seqx.Sys { return newSys(o) } }
 	if r.ReplayIn != "" {
 		var rp replay
 		r.LoadReplay(&rp)
+		if rp.Xproto != nil {
+			vs, _, err := xpRun(*rp.Xproto)
+			if err != nil {
+				r.Violation("infra/xproto", err.Error(), rp)
+			}
+			for _, v := range vs {
+				r.Violation(v.key, v.what, rp)
+			}
+			r.Finish()
+		}
 		s, vs, err := seqx.Run(seqx.Config{New: mk(rp.Cfg)}, rp.Trace)
 		if err != nil {
 			r.Violation("infra/replay", err.Error(), rp)
@@ -560,10 +571,10 @@ func main() {
 		}
 		st := seqx.Explore(seqx.Config{New: mk(c), MaxDepth: depth, Workers: 16, OutOfTime: r.OutOfTime,
 			OnViolation: func(tr []string, v seqx.Viol) {
-				r.Violation(v.Key, fmt.Sprintf("[%s] after %s: %s", c.Name, strings.Join(append(append([]string{}, c.Prefix...), tr...), " "), v.What), replay{c, tr})
+				r.Violation(v.Key, fmt.Sprintf("[%s] after %s: %s", c.Name, strings.Join(append(append([]string{}, c.Prefix...), tr...), " "), v.What), replay{Cfg: c, Trace: tr})
 			},
 			OnInfra: func(tr []string, err error) {
-				r.Violation("infra/hang-or-nondeterminism", fmt.Sprintf("[%s] %v: %v", c.Name, tr, err), replay{c, tr})
+				r.Violation("infra/hang-or-nondeterminism", fmt.Sprintf("[%s] %v: %v", c.Name, tr, err), replay{Cfg: c, Trace: tr})
 			},
 			OnState: func(d int, fp string, tr []string) {
 				r.Class(c.Name + "|" + fp)
@@ -586,5 +597,10 @@ func main() {
 	r.Cov("per_config", per)
 	r.Cov("max_depth", depth)
 	_ = bytes.Equal
+	if os.Getenv("C16_ONLY") == "" || os.Getenv("C16_ONLY") == "xproto" {
+		n := xpPhase(r)
+		r.Eval(n)
+		r.AddTraces(int64(n))
+	}
 	r.Finish()
 }
